@@ -26,8 +26,9 @@ INFO = {
     'engine': 'symx + z3 (QF_UFLRA)',
     'explanation': 'formula: exists X in R: expr(X) != ref_name(X) must be unsat for each of the table entries, sqrt/log/round/products uninterpreted.',
     'bounds': {t: {'formula': 'all entries of minimal, default, fw-transformers; X two free reals (element-wise formulas + np.max over the column)',
-                   'keepdrop': f'columns of {b["keepdrop"]} rows over 3 tokens incl. nan', 'union': f'preset lists of 1..{b["union"]} names out of 6', 'parse': f'strings of <= {b["parse"]} chars over 1 . " - e'} for t, b in BOUNDS.items()},
-    'outside': ['NaN/inf propagation and float rounding', 'text form of floats (astype(str))', 'extended/verbose tables are only covered by the union condition, not by the formula condition (the statement names minimal/default/fw)'],
+                   'keepdrop': f'columns of {b["keepdrop"]} rows over 3 tokens incl. nan', 'union': f'preset lists of 1..{b["union"]} names out of 6', 'parse': f'strings of <= {b["parse"]} chars over 1 . " - e',
+                   'text': 'two cells from 8 adversarial numeric texts (long reprs, integer-looking beyond 3.03e9, huge, quoted, empty) + 3 fixed rows, presets minimal/default/fw-transformers, real pandas/numpy'} for t, b in BOUNDS.items()},
+    'outside': ['NaN/inf propagation and float rounding', 'extended/verbose tables are only covered by the union condition, not by the formula condition (the statement names minimal/default/fw)'],
     'assumptions': ['sqrt, log, round(.,0), products and quotients of non-constant terms are uninterpreted total functions on reals (UF mode)'],
     'job_timeout': {'quick': 200, 'thorough': 1200},
 }
@@ -152,6 +153,7 @@ def jobs(tier):
     out = [{'cond': 'formula', 'table': t, 'label': t, 'weight': 10} for t in ('MINIMAL_TRANSFORMERS', 'DEFAULT_TRANSFORMERS', 'FW_TRANSFORMERS')]
     out += [{'cond': 'keepdrop', 'n': n, 'label': f'n={n}', 'weight': 3 ** n} for n in b['keepdrop']]
     out += [{'cond': 'union', 'k': b['union'], 'label': f'k<={b["union"]}', 'weight': 6 ** b['union']}]
+    out += [{'cond': 'text', 'pins': {'preset': p}, 'label': f'emitted texts, preset {TEXT_PRESETS[p]}', 'weight': 64} for p in range(len(TEXT_PRESETS))]
     out += [{'cond': 'parse', 'k': b['parse'], 'label': f'len<={b["parse"]}', 'weight': 5 ** b['parse']}]
     return out
 
@@ -251,6 +253,73 @@ def run_keepdrop(job):
         else:
             out.concrete_fail({'cond': 'keepdrop', 'col': col}, 'keep/drop rule')
         out.sample({'col': col, 'emitted': emitted})
+    return hutil.run_symx(job, setup, body)
+
+
+# numeric cells whose transformed values have long texts (17 significant digits with a sign and an exponent), integer-looking cells
+# beyond 2^31.5 (their square leaves int64), huge, quoted and empty cells
+TEXT_POOL = ['-1.2345678901234567e-05', '1.2345678901234567e+200', '-7.3e16', '3037000500', '5000000000', '', '0.1', '"12"']
+TEXT_FIXED = ['1', '2', '3']
+TEXT_PRESETS = ['minimal', 'default', 'fw-transformers']
+
+
+def text_problem(rt, preset, cells):
+    """real FeatureTransformerGeneric on a real frame: every emitted text, read back as a number, is the named formula of the parsed cell"""
+    import pandas as pd
+    col = list(cells) + TEXT_FIXED
+    tr = rt.FeatureTransformerGeneric({'num'}, preset)
+    res = tr.construct_new_features(pd.DataFrame({'num': col, 'other': ['x'] * len(col)}))
+    xs = [parse_expected(c) for c in col]
+    if list(res['num']) != col:
+        return 'the source column changed'
+    for c in res.columns:
+        if c in ('num', 'other'):
+            continue
+        name = c[len('num'):]
+        try:
+            exp = c_ref(name, xs)
+        except KeyError:
+            continue      # a transformer outside the named families (extended tables): formula condition territory
+        txt = list(res[c])
+        if len(txt) != len(col):
+            return f'{c}: {len(txt)} values for {len(col)} rows'
+        for i, (t, e) in enumerate(zip(txt, exp)):
+            try:
+                ok = isinstance(t, str) and same_num(float(t), e)
+            except ValueError:
+                ok = False
+            if not ok:
+                return f'{c}: cell {col[i]!r} is emitted as {t!r}, the named formula gives {float(e)!r}'
+    return None
+
+
+def run_text(job):
+    rt = real_generic()
+    loader.record_functions('outrank/feature_transformations/ranking_transformers.py', ['FeatureTransformerGeneric.construct_new_features', 'FeatureTransformerGeneric.get_vals'])
+    st = {}
+
+    def setup(ctx):
+        st['c'] = [z3.Int(f'c{i}') for i in range(2)]
+        for v in st['c']:
+            ctx.assume(v >= 0, v < len(TEXT_POOL))
+        st['p'] = z3.Int('preset')
+        ctx.assume(st['p'] >= 0, st['p'] < len(TEXT_PRESETS))
+        for k, v in job['pins'].items():
+            ctx.assume(z3.Int(k) == v)
+
+    def body(ctx, out):
+        cells = [TEXT_POOL[int(SInt(v, 0, len(TEXT_POOL) - 1))] for v in st['c']]
+        preset = TEXT_PRESETS[int(SInt(st['p'], 0, len(TEXT_PRESETS) - 1))]
+        w = {'cond': 'text', 'cells': cells, 'preset': preset}
+        try:
+            p = text_problem(rt, preset, cells)
+        except Exception as e:
+            p = f'{type(e).__name__}: {e}'
+        if p or out.twin:
+            out.concrete_fail(w, p or 'twin')
+        else:
+            out.concrete_ok()
+        out.sample(w)
     return hutil.run_symx(job, setup, body)
 
 
@@ -374,7 +443,7 @@ def SHIPPED_PRESETS():
 
 
 def run_job(job):
-    return {'formula': run_formula, 'keepdrop': run_keepdrop, 'union': run_union, 'parse': run_parse}[job['cond']](job)
+    return {'formula': run_formula, 'keepdrop': run_keepdrop, 'union': run_union, 'parse': run_parse, 'text': run_text}[job['cond']](job)
 
 
 def replay(w):
@@ -393,6 +462,14 @@ def replay(w):
             sig = 'C12:preset-union-after-history' if (hist and not union_history(rt, tv, SHIPPED_PRESETS(), [], w['presets']) == probs and 'after a transformer' in probs[0]) else 'C12:preset-union'
             return {'reproduced': True, 'signature': sig, 'what': probs[0]}
         return {'reproduced': False, 'what': 'union selected'}
+    if c == 'text':
+        try:
+            p = text_problem(rt, w['preset'], w['cells'])
+        except Exception as e:
+            p = f'{type(e).__name__}: {e}'
+        if p:
+            return {'reproduced': True, 'signature': 'C12:text:' + p.split(':')[0][3:40], 'what': f'preset {w["preset"]}, numeric column {w["cells"] + TEXT_FIXED}: {p}'}
+        return {'reproduced': False, 'what': 'every emitted text reads back as the named formula'}
     if c == 'keepdrop':
         col = w['col']
         tr = rt.FeatureTransformerGeneric({'num'}, 'minimal')
